@@ -1,5 +1,6 @@
 (* C02 — Header and payload partition the packet; setting a payload reads back exactly.
-   Only statements here; proofs in Proofs/PayloadPart.v, Proofs/PayloadSet.v, Proofs/PayloadCreate.v.
+   Only statements here; proofs in Proofs/PayloadPart.v, Proofs/PayloadSet.v, Proofs/PayloadCreate.v,
+   Proofs/PayloadAfc.v (all control-bit transitions) and Proofs/CreateOptions.v (Create with any option list).
 
    Reading guide.  A well-formed packet is the serialisation [Iso.ser_pkt l] of a logical packet
    l = (header fields, adaptation field, payload) with [Iso.wf_lpkt l] (Spec/Iso13818Hdr.v):
@@ -11,7 +12,8 @@
    gap = 0xFF stuffing, control 01 -> 11 when a field has to be created.
    The model is the REPAIRED SetPayload (defect F7) and stuffingEnd (F6); see notes/findings/C02.md. *)
 From Gots Require Import Base.Prelude Base.PacketLemmas Model.Packet Model.Create Spec.Iso13818Hdr
-  Proofs.HdrBits Proofs.PayloadPart Proofs.PayloadSet Proofs.PayloadCreate.
+  Proofs.HdrBits Proofs.PayloadPart Proofs.PayloadSet Proofs.PayloadCreate Proofs.PayloadAfc
+  Model.Pes Proofs.PesCreate Proofs.CreateOptions.
 Import Packet.
 Local Open Scope N_scope.
 
@@ -111,6 +113,49 @@ Theorem C02_set_afc3_on_af_only : forall h a st, let l := Iso.mkLpkt h (Iso.AF a
 Proof. exact set_afc3_on_af_only. Qed.
 Print Assumptions C02_set_afc3_on_af_only.
 
+(* ---- SetAdaptationFieldControl, the remaining from/to pairs.  A packet is written  ser_hdr h ++ X  (the 4 header
+        bytes of the logical header h, then the other 184 bytes); C02_wf_parts: every well-formed packet has that
+        form, and the statements below hold for ANY 184 bytes X (also malformed adaptation fields).
+        to 00 / 01 (from anything): only the two control bits change, never an error ---- *)
+Theorem C02_wf_parts : forall l, Iso.wf_lpkt l ->
+  let X := Iso.ser_af (Iso.lf l) ++ Iso.lpayload l in
+  Iso.ser_pkt l = Iso.ser_hdr (Iso.lh l) ++ X /\ Iso.hdr_ok (Iso.lh l) /\ is_bytes X /\ len X = 184.
+Proof. exact wf_parts. Qed.
+Print Assumptions C02_wf_parts.
+Theorem C02_set_afc_drops_field : forall h X, Iso.hdr_ok h -> is_bytes X -> len X = 184 -> forall v, v < 2 ->
+  SetAdaptationFieldControl (Iso.ser_hdr h ++ X) v = (Iso.ser_hdr (Iso.with_afc h v) ++ X, None).
+Proof. exact set_afc_drops_field. Qed.
+Print Assumptions C02_set_afc_drops_field.
+(* to 10 from 10 or 11: only the control bits change (from 11 the payload bytes stay where they are and are no
+   longer payload: the packet is well-formed again only if the field length is set to 183 by the caller) *)
+Theorem C02_set_afc2_keeps_field : forall h X, Iso.hdr_ok h -> is_bytes X -> len X = 184 -> Iso.has_af h = true ->
+  SetAdaptationFieldControl (Iso.ser_hdr h ++ X) 2 = (Iso.ser_hdr (Iso.with_afc h 2) ++ X, None).
+Proof. exact set_afc2_keeps_field. Qed.
+Print Assumptions C02_set_afc2_keeps_field.
+(* from the reserved value 00 the call behaves exactly as from 01, and from either of them 10 / 11 create the field
+   (C02_set_afc_creates for any 184 bytes after the header) *)
+Theorem C02_set_afc_from0_as_from1 : forall h X, Iso.hdr_ok h -> is_bytes X -> len X = 184 -> forall v, v < 4 ->
+  Iso.afc h = 0 ->
+  SetAdaptationFieldControl (Iso.ser_hdr h ++ X) v = SetAdaptationFieldControl (Iso.ser_hdr (Iso.with_afc h 1) ++ X) v.
+Proof. exact set_afc_from0_as_from1. Qed.
+Print Assumptions C02_set_afc_from0_as_from1.
+Theorem C02_set_afc_creates_any : forall h X, Iso.hdr_ok h -> is_bytes X -> len X = 184 ->
+  Iso.sync h = 71 -> Iso.has_af h = false ->
+  SetAdaptationFieldControl (Iso.ser_hdr h ++ X) 2 =
+    (Iso.ser_pkt (Iso.mkLpkt (Iso.with_afc h 2) (Iso.AF Iso.laf0 (repeatN 255 182)) []), None) /\
+  SetAdaptationFieldControl (Iso.ser_hdr h ++ X) 3 =
+    (Iso.ser_pkt (Iso.mkLpkt (Iso.with_afc h 3) (Iso.AF Iso.laf0 (repeatN 255 181)) [255]), None).
+Proof. exact set_afc_creates_any. Qed.
+Print Assumptions C02_set_afc_creates_any.
+(* which of the 3 x 4 calls on well-formed packets fail: exactly 10 -> 11 on a packet whose adaptation field has
+   no stuffing byte to give up (ErrAdaptationFieldTooLarge); every other call returns nil *)
+Theorem C02_set_afc_error_iff : forall l v, Iso.wf_lpkt l -> v < 4 ->
+  snd (SetAdaptationFieldControl (Iso.ser_pkt l) v) =
+  if (Iso.afc (Iso.lh l) =? 2) && (v =? 3) && negb (nonempty_b (stuffing_of l))
+  then Some E.AdaptationFieldTooLarge else None.
+Proof. exact set_afc_error_iff. Qed.
+Print Assumptions C02_set_afc_error_iff.
+
 (* ---- creation helpers ---- *)
 (* the first min(n,184) payload bytes are the requested ones (for n < 2 the rest of the payload is
    00 7f 00..: WithContinuousAF writes byte 5 although no adaptation field is flagged, see findings) *)
@@ -130,6 +175,62 @@ Theorem C02_create_dc_packet : forall v cc, v < 8192 -> cc < 16 ->
   is_pkt p /\ Iso.hdr_of p = Iso.mkHdr 71 0 0 0 v 0 1 cc.
 Proof. exact create_dc_spec. Qed.
 Print Assumptions C02_create_dc_packet.
+
+(* ---- Create(pid, options...) with an ARBITRARY option list (Proofs/CreateOptions.v).
+        Options on the model side: the six exported option functions, closures around WithPES(pkt, pts)
+        (OptWithPES) and around SetPayload(pkt, pay) (OptSetPayload, as CreatePacketWithPayload builds it).
+        byte1_of / byte3_of / byte5_of depend only on WHICH options occur:
+          byte 1 = PID high bits | 0x40 if WithPUSI occurs;
+          byte 3 = 0x10 if WithHasPayloadFlag or WithPES occurs | 0x20 if WithHasAdaptationFieldFlag occurs;
+          byte 5 = 0x02 if WithAFPrivateDataFlag | 0x7f if WithContinuousAF | 0x80 if WithDiscontinuousAF occurs.
+        EVERY list, any Go int as pid: 188 bytes, sync 0x47, the 13 low bits of pid, PUSI / control bits as
+        requested, error indicator, priority, scrambling control and continuity counter 0 ---- *)
+Theorem C02_create_any_header : forall z os,
+  length (Create.Create z os) = 188%nat /\
+  Iso.hdr_of (Create.Create z os) =
+    Iso.mkHdr 71 0 (b2n (existsb is_pusi os)) 0 (Z.to_N (z mod 8192)) 0 (afc_of os) 0.
+Proof. exact create_any_header. Qed.
+Print Assumptions C02_create_any_header.
+(* lists of the six exported options: the whole packet (bytes 4 and 6..187 stay 0; note that byte 5 is written
+   whether or not the adaptation-field flag is given: without it, it is the second payload byte) *)
+Theorem C02_create_flag_options : forall z os, forallb flag_opt os = true ->
+  Create.Create z os = 71 :: byte1_of z os :: pb2 z :: byte3_of os :: 0 :: byte5_of os :: repeatN 0 182 /\
+  is_pkt (Create.Create z os).
+Proof. intros z os F. exact (conj (create_flags z os F) (create_flags_pkt z os F)). Qed.
+Print Assumptions C02_create_flag_options.
+(* lists with WithPES, split at the LAST WithPES (pre: flag options and earlier WithPES closures; post: flag
+   options): the PES start (pes_pay pts = 00 00 01 b8 00 00 40 80 0e, the five PTS bytes, zeros) lies at offset 4, or
+   at offset 5 when the adaptation-field flag was set BEFORE that WithPES; byte 5 is cleared by WithPES and then
+   ORed by the byte-5 options that follow it *)
+Theorem C02_create_with_pes : forall z pre pts post,
+  forallb flag_or_pes pre = true -> forallb flag_opt post = true ->
+  let os := pre ++ Create.OptWithPES pts :: post in
+  Create.Create z os = 71 :: byte1_of z os :: pb2 z :: byte3_of os :: 0 :: byte5_of post
+                          :: pes_body (existsb is_afflag pre) pts /\
+  is_pkt (Create.Create z os).
+Proof. intros z pre pts post Fp Fq. exact (conj (create_with_pes z pre pts post Fp Fq) (create_with_pes_pkt z pre pts post Fp Fq)). Qed.
+Print Assumptions C02_create_with_pes.
+(* ... and when nothing disturbs it afterwards (no byte-5 option after the last WithPES; the adaptation-field flag
+   set before it or never) the payload IS the PES start, PESHeader returns it exactly when WithPUSI was given, and
+   the pes decoder (Model/Pes.v, property C11) reads the requested 33-bit PTS back *)
+Theorem C02_create_pes_readback : forall z pre pts post,
+  forallb flag_or_pes pre = true -> forallb flag_opt post = true -> pts < 8589934592 ->
+  byte5_of post = 0 -> (existsb is_afflag pre = true \/ existsb is_afflag post = false) ->
+  let os := pre ++ Create.OptWithPES pts :: post in
+  let p := Create.Create z os in
+  let pay := if existsb is_afflag pre then firstn 183 (pes_pay pts) else pes_pay pts in
+  Payload_fn p = Ok pay /\
+  (existsb is_pusi os = true -> PESHeader p = Ok pay) /\
+  (existsb is_pusi os = false -> PESHeader p = Err E.NoPayload) /\
+  exists h, Pes.new_pes_header pay = Ok h /\
+    Pes.packetStartCodePrefix h = 1 /\ Pes.streamId h = 184 /\
+    Pes.has_pts h = true /\ Pes.has_dts h = false /\ Pes.pts h = pts.
+Proof. exact create_pes_readback. Qed.
+Print Assumptions C02_create_pes_readback.
+(* the model's WithPES payload is that byte string, for every uint64 argument *)
+Theorem C02_pes_payload : forall pts, Create.pes_payload pts = pes_pay pts /\ is_bytes (pes_pay pts) /\ length (pes_pay pts) = 184%nat.
+Proof. intros pts. exact (conj (pes_payload_eq pts) (conj (pes_pay_bytes pts) (pes_pay_length pts))). Qed.
+Print Assumptions C02_pes_payload.
 
 (* function-style SetPayload(pkt, pay) of create.go: writes over the payload area only, never the header part *)
 Theorem C02_set_payload_fn : forall l d, Iso.wf_lpkt l ->
@@ -151,3 +252,18 @@ Example C02_nonvacuous :
   Payload_m (Iso.ser_pkt (Iso.set_payload ex_l [1;2;3;4;5])) = Ok [1;2;3;4;5] /\
   firstn 18 (Iso.ser_pkt (Iso.set_payload ex_l [1;2;3;4;5])) = [71;65;0;55; 178; 86; 1;2;3;4;5;6; 9; 2;170;187; 255;255].
 Proof. vm_compute. repeat split; reflexivity. Qed.
+
+(* non-vacuity of the option-list theorems: PUSI, the adaptation-field flag, two WithPES (the second one counts),
+   a discontinuity flag after it; and a flag-only list with repetitions *)
+Example C02_create_nonvacuous :
+  let os := [Create.WithPUSI; Create.OptWithPES 5; Create.WithHasAdaptationFieldFlag; Create.WithContinuousAF;
+             Create.OptWithPES 8589934591; Create.WithDiscontinuousAF] in
+  firstn 20 (Create.Create 0x1234 os) = [71; 0x52; 0x34; 0x30; 0; 0x80; 0; 1; 184; 0; 0; 64; 128; 14; 0x2f; 0xff; 0xff; 0xff; 0xff; 0] /\
+  Create.Create (-1) [Create.WithContinuousAF; Create.WithHasPayloadFlag; Create.WithContinuousAF; Create.WithAFPrivateDataFlag]
+    = 71 :: 31 :: 255 :: 16 :: 0 :: 127 :: repeatN 0 182 /\
+  (let p := Create.Create 256 [Create.WithHasAdaptationFieldFlag; Create.OptWithPES 900000; Create.WithPUSI] in
+   exists pay h, PESHeader p = Ok pay /\ Pes.new_pes_header pay = Ok h /\ Pes.pts h = 900000 /\ length pay = 183%nat).
+Proof. split; [vm_compute; reflexivity|]. split; [vm_compute; reflexivity|]. cbv zeta.
+  destruct (create_pes_readback 256 [Create.WithHasAdaptationFieldFlag] 900000 [Create.WithPUSI] eq_refl eq_refl eq_refl eq_refl
+              (or_introl eq_refl)) as (_ & P & _ & h & NH & _ & _ & _ & _ & HP).
+  cbv zeta in *. eexists. exists h. split; [exact (P eq_refl)|]. split; [exact NH|]. split; [exact HP | reflexivity]. Qed.
